@@ -325,11 +325,27 @@ def interface_case(ctx, r):
             must = any(mem.get(m) in ("annot", "abstract") for (_, mem, _) in targets)
             if must or r.random() < 0.5:
                 tag = f"impl{k}.{m}"
-                form = r.choice(["fn", "ds", "value", "option"])
+                form = r.choice(["fn", "ds", "value", "option", "ds-callback", "ds-preset", "ds-dispatching"])
                 if form == "fn":
                     ns[m] = staticmethod(body(tag))
                 elif form == "ds":
                     ns[m] = dataset(body(tag))
+                elif form == "ds-callback":
+                    # the implementation is a dataset in its own right: its callback, pre-set options and its own
+                    # dispatch belong to it
+                    ns[m] = dataset(body(tag), callback=lambda v: v + "!")
+                    tag = tag + "!"
+                elif form == "ds-preset":
+                    def with_q(q=Option("Q9", "none"), _t=tag):
+                        return _t + ":" + q
+
+                    ns[m] = dataset(with_q, options={"Q9": "preset"})
+                    tag = tag + ":preset"
+                elif form == "ds-dispatching":
+                    inner = dataset(body(tag + ":inner-default"), dispatch=Option("N9", "pick"))
+                    inner.register("pick", Option("Z9", tag + ":picked"))
+                    ns[m] = inner
+                    tag = tag + ":picked"
                 elif form == "value":
                     ns[m] = tag
                 else:
